@@ -28,6 +28,9 @@ struct FaultCfg {
 	int touchedCount = 0;
 	// counters (since last reset)
 	uint64_t syscalls = 0, firedShortRead = 0, firedShortWrite = 0, firedEintr = 0, firedReaddir = 0, sunkBytes = 0;
+	// failing opens: while armed, the openFailCountdown-th fopen/open for READING from now fails with EMFILE (0 = off): the process is out of
+	// descriptors, or the file went away between two opens of the same name
+	uint64_t openFailCountdown = 0, firedOpenFail = 0;
 };
 extern FaultCfg g_fault;
 
